@@ -102,13 +102,15 @@ variable {α : Type} [LT α] [DecidableLT α]
 def keyLt (a b : Row α) : Bool :=
   decide (a.h < b.h) || (!decide (b.h < a.h) && decide (max a.i a.j < max b.i b.j))
 
-/-- stable insertion: after every element that is not greater -/
+/-- stable insertion of an earlier row number `t` into the sorted list of the later ones: after the elements that
+    are strictly smaller, before every element that is not (equal keys keep the order of the row numbers, as
+    `np.lexsort` does) -/
 def insertIdx (D : Dendro α) (t : Nat) : List Nat → List Nat
   | [] => [t]
   | u :: us =>
     match D[t]?, D[u]? with
-    | some rt, some ru => if keyLt rt ru then t :: u :: us else u :: insertIdx D t us
-    | _, _ => u :: insertIdx D t us
+    | some rt, some ru => if keyLt ru rt then u :: insertIdx D t us else t :: u :: us
+    | _, _ => t :: u :: us
 
 /-- `index = np.lexsort(order)`: row numbers in sorted order (stable) -/
 def lexsortIdx (D : Dendro α) : List Nat :=
